@@ -586,7 +586,8 @@ def correspond(chk, configs):
                        '(numInGroup type, blockLength type, n, blockLength, header size) in one compiler configuration; '
                        'distinct = distinct (types, header contents, expression) tuples whose result was compared with the '
                        'implementation; expressions on which the specification is silent (PRE/NR) are compared with the model only')
-    chk.cov['exhaustive'] = 'all expressions of depth <= 3 over the listed literal steps for sizes/block lengths 0..3, all 16 type pairs'
+    chk.cov['exhaustive'] = False
+    chk.cov['exhaustive_part'] = 'all expressions of depth <= 3 over the listed literal steps for sizes/block lengths 0..3, all 16 type pairs'
     chk.cov['configurations'] = ['%s -std=%s' % c for c in configs] + ['each: SBEPP_DISABLE_ASSERTS and SBEPP_ENABLE_ASSERTS_WITH_HANDLER']
     for name in ('small', 'boundary', 'checked', 'nest'):
         if streams[name]:
